@@ -336,7 +336,7 @@ def oracle(c, out):
 def run(ctx):
     proof = core.coq_properties("C04")
     ctx.say("proof stage: ok=%s theorems=%d audit=%d (%.1fs)" % (proof["ok"], len(proof["theorems"]), len(proof["audit"]), proof.get("wall_s", 0)))
-    n = ctx.scale(8000, 300000)
+    n = ctx.scale(8000, 80000)
     rng = ctx.rng
     cases = []
     for _ in range(n):
@@ -358,8 +358,8 @@ def run(ctx):
             # 23 octets of header and lengths + two attributes with extended length (4 + value each)
             cases.append({"op": "enc", "ext": ext, "ap": False, "msg": ("update", [], [("unknown", 192, 200, [1] * a), ("unknown", 192, 201, [2] * b)], [])})
     cases.append({"op": "rich"})
-    cases += fnlri_cases(rng, ctx.scale(1500, 60000))
-    cases += mp_cases(rng, ctx.scale(700, 30000))
+    cases += fnlri_cases(rng, ctx.scale(1500, 30000))
+    cases += mp_cases(rng, ctx.scale(700, 15000))
     cov = core.differential(ctx, "c04", proof, cases, line_of, oracle, norm_impl=norm, norm_model=norm,
                             model_applies=lambda c: c["op"] != "rich",
                             nontrivial=lambda c: c["op"] in ("dec", "rich", "nlri", "mknlri", "mpnlri") or (c["msg"][0] == "update" and len(c["msg"][2]) >= 2),
